@@ -134,7 +134,7 @@ func C08(p *load.Prog, r *oblig.Run) {
 	r.Assumptions = e4Assumptions()
 	r.Rule("R08.a", "computing, printing, sorting or querying a diff performs no structural write on the compared trees", 5)
 	r.Rule("R08.b", "each entry's Left (Right) is a node of the left (right) input itself", 2)
-	g := cg.New(p, r.Tier == "thorough")
+	g := cg.New(p, false)
 	roots := []*ssa.Function{p.MustFunc(load.PkgRoot, "CompareNodes")}
 	for _, m := range []string{"String", "IsDeepEqual", "Sort", "Tag"} {
 		roots = append(roots, p.MustMethod(load.PkgRoot, "NodeDiff", m))
@@ -189,7 +189,7 @@ func C09(p *load.Prog, r *oblig.Run) {
 	r.Rule("R09.a", "the merge result is built from fresh nodes all the way down", 2)
 	r.Rule("R09.b", "merging performs no structural write on either input", 2)
 	r.Rule("R09.c", "a merge function returns nil or a node computed from both operands (nothing of the right node is dropped by a shortcut)", 1)
-	g := cg.New(p, r.Tier == "thorough")
+	g := cg.New(p, false)
 	mn := p.MustFunc(load.PkgRoot, "MergeNodes")
 	ms := p.MustFunc(load.PkgRoot, "MergeNodeSlices")
 	eq := p.MustFunc(load.PkgRoot, "EqualityMergeFunction")
@@ -327,7 +327,7 @@ func C07(p *load.Prog, r *oblig.Run) {
 	r.Rule("R07.a", "a deep copy shares no node with its source", 1)
 	r.Rule("R07.b", "copying leaves the source untouched", 2)
 	r.Rule("R07.c", "a node is copied with its own tag, value and pointer through the kind registry", 1)
-	g := cg.New(p, r.Tier == "thorough")
+	g := cg.New(p, false)
 	dc := p.MustFunc(load.PkgRoot, "DeepCopy")
 	fl := p.MustFunc(load.PkgRoot, "Filter")
 	{
